@@ -247,7 +247,7 @@ fn to_f64_strategy() -> BoxedStrategy<DecToF> {
         let m = m.canonical();
         DecToF { d: D::new(m.int.to_string(), m.scale as i64) }
     });
-    let extreme = (gen::sdigits(30), prop_oneof![(300i64..=340), (-340i64..=-300), (2_147_483_000i64..=2_147_484_500), (-2_147_484_500i64..=-2_147_483_000), any::<i64>()]).prop_map(|(int, scale)| DecToF { d: D::new(int, scale) });
+    let extreme = (gen::sdigits(30), prop_oneof![(300i64..=340).boxed(), (-340i64..=-300).boxed(), (2_147_483_000i64..=2_147_484_500).boxed(), (-2_147_484_500i64..=-2_147_483_000).boxed(), any::<i64>().boxed(), gen::pow2_scale()]).prop_map(|(int, scale)| DecToF { d: D::new(int, scale) });
     prop_oneof![4 => free, 2 => halfway, 2 => around, 1 => extreme].boxed()
 }
 
@@ -284,6 +284,35 @@ pub fn run(ctx: &Ctx) {
             let e = (i / 2) % 2048;
             let j = i / 4096;
             Some(F64Bits { bits: (sign << 63) | (e << 52) | mantissa64(j, seed ^ e) })
+        },
+        check_f64,
+    );
+    ctx.enumerated(
+        "f64-structured",
+        "f64",
+        53 * 90 * t.pick(12, 200) * 2,
+        false,
+        "mantissas with every count of trailing zero bits 0..52 (odd part pseudo-random) x every number of fractional bits -10..79 relative to the binary point x both signs: values m / 2^k with m of every width",
+        move |i| {
+            let mut k = i;
+            let neg = k % 2;
+            k /= 2;
+            let tz = k % 53;
+            k /= 53;
+            let frac_bits = (k % 90) as i64 - 10; // bits of the odd part below the binary point
+            k /= 90;
+            let mut rng = gen::SplitMix(seed ^ i.wrapping_mul(0x9e3779b97f4a7c15) ^ k);
+            // 53-bit significand: implicit one, random middle, a one at position tz, zeros below
+            let width = 53 - tz; // bits of the odd part
+            let odd: u64 = if width <= 1 { 1 } else { (1u64 << (width - 1)) | (rng.next() & ((1u64 << (width - 1)) - 1)) | 1 };
+            let sig = odd << tz; // 53 bits, top bit set
+            // value = odd * 2^(-frac_bits)  =>  sig * 2^(e - 52) with e - 52 = -frac_bits - tz
+            let e = 52 - frac_bits - tz as i64;
+            let field = e + 1023;
+            if !(1..=2046).contains(&field) {
+                return None;
+            }
+            Some(F64Bits { bits: (neg << 63) | ((field as u64) << 52) | (sig & ((1u64 << 52) - 1)) })
         },
         check_f64,
     );
